@@ -825,7 +825,11 @@ class MultipartReader:
                 # Longest encoding in https://encoding.spec.whatwg.org/encodings.json
                 # is 19 characters, so 32 should be more than enough for any valid encoding.
                 # (a chunk cannot be shorter than the delimiter)
-                charset = await part.read_chunk(max(32, len(self._boundary) + 4))
+                size = max(32, len(self._boundary) + 4)
+                charset = await part.read_chunk(size)
+                while len(charset) <= 31 and not part.at_eof():
+                    # A chunk is what has arrived so far, not the whole value
+                    charset += await part.read_chunk(size)
                 if len(charset) > 31:
                     raise RuntimeError("Invalid default charset")
                 self._default_charset = charset.strip().decode()
